@@ -81,6 +81,9 @@ func check(s Spec) h.Result {
 	var dopts *h.DiffOpts
 	if len(s.Jitter) > 0 {
 		cl = append(cl, "producer:diff-time-with-short-reads")
+		if s.Jitter[0]&1 == 1 {
+			cl = append(cl, "producer:source-returns-data-with-EOF")
+		}
 		j := h.NewJitter(s.Jitter, 0)
 		dopts = &h.DiffOpts{WrapPool: func(p lake.Pool) lake.Pool { return &h.JitterPool{Pool: p, J: j} }}
 	}
